@@ -4,10 +4,11 @@
    (WebVTT cue text and blocks), spec/SpecTextBlocks.v (SRT blocks, MicroDVD lines), spec/SpecTextLines.v
    (line comparison).  Document level for DFXP/SAMI (bs4 prettify, lxml, html.parser) is correspondence-only. *)
 From Coq Require Import List ZArith Bool.
-From PV Require Import lib.Sx lib.Str model.TextNodes model.TextWrite.
+From PV Require Import lib.Sx lib.Str model.TextNodes model.TextWrite model.TextWriteVtt.
 From PV Require Import spec.SpecTextXml spec.SpecTextVtt spec.SpecTextBlocks spec.SpecTextLines spec.SpecTextStyle.
 From PV Require Import proofs.TextXmlFacts proofs.TextVttFacts proofs.TextBlocksFacts.
 From PV Require Import proofs.TextReadFacts proofs.TextPayloadFacts proofs.TextRoundtripFacts.
+From PV Require Import proofs.TextAttrFacts proofs.TextAttrRoundFacts proofs.TextVttGroupFacts.
 Import ListNotations.
 Open Scope Z_scope.
 
@@ -148,7 +149,74 @@ Theorem C03_mdvd_doc_meets_oracle : forall caps, Forall mdvd_cap_ok caps ->
 Proof. exact mdvd_doc_meets_oracle. Qed.
 Print Assumptions C03_mdvd_doc_meets_oracle.
 
+(* ---- wave 7: attribute values (xml.sax.saxutils.quoteattr) and style dictionaries with a colour ----
+   For EVERY string over XML Char (tab, line feed, carriage return, quotes of both kinds, & < > included) the strict
+   parser reads the attribute value written by quoteattr back as exactly that string ... *)
+Theorem C03_quoteattr_roundtrip : forall s, forallb xml_char s = true ->
+  parse_tag (lit "a x=" ++ quoteattr s) = Some (TkOpen (lit "a") [(lit "x", s)]).
+Proof. exact quoteattr_tag_roundtrip. Qed.
+Print Assumptions C03_quoteattr_roundtrip.
+
+(* ... also through the tokenizer (the quoted value hides neither the end of the tag nor a markup character) *)
+Theorem C03_quoteattr_content_roundtrip : forall s, forallb xml_char s = true ->
+  content_parse (lit "<a x=" ++ quoteattr s ++ lit "/>") = Some [XElem (lit "a") [(lit "x", s)] []].
+Proof. exact quoteattr_content_roundtrip. Qed.
+Print Assumptions C03_quoteattr_content_roundtrip.
+
+(* the payload theorems above for style dictionaries WITH a colour (color_style: any colour string over XML Char):
+   the span start tag carries tts:color with exactly the authored value (dfxp_atok_c), the text is untouched by it *)
+Theorem C03_dfxp_payload_parse_color : forall region ns, nodes_ok color_style ns = true ->
+  content_parse (dfxp_payload (extra_of region) ns) = xbuild (abs_tokens [] a_close (dfxp_atok_c region) ns) [] [].
+Proof. exact dfxp_payload_parse_c. Qed.
+Print Assumptions C03_dfxp_payload_parse_color.
+
+Theorem C03_legacy_payload_parse_color : forall ns, nodes_ok color_style ns = true ->
+  content_parse (legacy_payload ns) = xbuild (abs_tokens [] a_close (dfxp_atok_c false) ns) [] [].
+Proof. exact legacy_payload_parse_c. Qed.
+Print Assumptions C03_legacy_payload_parse_color.
+
+Theorem C03_dfxp_payload_wellformed_color : forall region ns, nodes_ok color_style ns = true -> flat_balanced ns = true ->
+  exists t, content_parse (dfxp_payload (extra_of region) ns) = Some t /\
+            vis (flat_map tree_flat t) = vis (node_flat ns).
+Proof. exact dfxp_payload_wellformed_c. Qed.
+Print Assumptions C03_dfxp_payload_wellformed_color.
+
+Theorem C03_legacy_payload_wellformed_color : forall ns, nodes_ok color_style ns = true -> flat_balanced ns = true ->
+  exists t, content_parse (legacy_payload ns) = Some t /\ vis (flat_map tree_flat t) = vis (node_flat ns).
+Proof. exact legacy_payload_wellformed_c. Qed.
+Print Assumptions C03_legacy_payload_wellformed_color.
+
+(* ---- wave 7: WebVTT captions written as several cues (node-level layouts, model/TextWriteVtt.v) ----
+   whatever the node list and wherever the layout changes, NO cue text of ANY layout group contains the arrow
+   (the re-scan of the buffer acts in every group, not only in the last one) ... *)
+Theorem C03_vtt_groups_no_arrow : forall lns, Forall (fun g => is_infix (lit "-->") (fst g) = false) (vtt_groups lns).
+Proof. exact vtt_groups_no_arrow. Qed.
+Print Assumptions C03_vtt_groups_no_arrow.
+
+(* ... and with one layout (or none) on all nodes the groups are the single cue text of vtt_cue_text *)
+Theorem C03_vtt_groups_one_layout : forall l lns, same_layout l lns = true ->
+  map fst (vtt_groups lns) = match vtt_cue_text (map snd lns) with [] => [] | s => [s] end.
+Proof. exact vtt_groups_one_layout. Qed.
+Print Assumptions C03_vtt_groups_one_layout.
+
 (* ---- non-vacuity ---- *)
+Example C03_example_quoteattr :
+  quoteattr (lit "a""b'c<&" ++ [10]) = lit """a&quot;b'c&lt;&amp;&#10;""" /\
+  forallb xml_char (lit "a""b'c<&" ++ [10]) = true.
+Proof. split; vm_compute; reflexivity. Qed.
+
+Example C03_example_color :
+  let ns := [NStyle true (mkStyle true false false (Some (lit "a""<'&"))); NText (lit "x"); NStyle false (mkStyle true false false (Some (lit "a""<'&")))] in
+  nodes_ok color_style ns = true /\ flat_balanced ns = true /\
+  content_parse (dfxp_payload [] ns) =
+  Some [XElem (lit "span") [(lit "tts:fontStyle", lit "italic"); (lit "tts:color", lit "a""<'&")] [XText (lit "x")]].
+Proof. repeat split; vm_compute; reflexivity. Qed.
+
+Example C03_example_groups :
+  vtt_groups [(1, NText (lit "up --")); (1, NText (lit "> down")); (2, NText (lit "x -")); (2, NStyle true sty_i); (2, NText (lit "->"))] =
+  [(lit "up --&gt; down", 1); (lit "x -<i>->", 2)].
+Proof. vm_compute. reflexivity. Qed.
+
 Example C03_example_escape : content_parse (xml_escape (lit "a<b & ]]> c")) = Some [XText (lit "a<b & ]]> c")].
 Proof. vm_compute. reflexivity. Qed.
 
